@@ -64,7 +64,14 @@ pub struct Transcript {
 }
 impl StepHook for Transcript {
     fn text_line(&mut self, line: &str) {
-        self.dig.bytes(line.as_bytes());
+        // hash without the informative «message» of a panic
+        match (line.find('\u{ab}'), line.rfind('\u{bb}')) {
+            (Some(i), Some(j)) if j > i => {
+                self.dig.bytes(line[..i].as_bytes());
+                self.dig.bytes(line[j + '\u{bb}'.len_utf8()..].as_bytes());
+            }
+            _ => self.dig.bytes(line.as_bytes()),
+        }
         if self.keep {
             self.lines.push(line.to_string());
         }
